@@ -234,3 +234,23 @@ def handles():
         h.release()
         if was:
             gc.enable()
+
+
+def to_disk(f, d, h, name='src.nc', fmt='netcdf'):
+    """Save the in-memory file f as NETCDF4 under directory d and open it
+    again (handles kept in h).  -> the disk-backed file, or None when the
+    file cannot be saved (saving is C07's business)."""
+    import PseudoNetCDF as pnc
+    try:
+        path = os.path.join(d, name)
+        h.keep(f.save(path, format='NETCDF4', verbose=0)).close()
+        g = h.keep(pnc.pncopen(path, format=fmt))
+        # an unlimited dimension no variable uses has length 0 on disk: then
+        # the file on disk is another file than the one generated
+        for k, dm in f.dimensions.items():
+            if k not in g.dimensions or len(g.dimensions[k]) != len(dm):
+                return None
+        return g
+    except Exception:
+        return None
+
